@@ -82,6 +82,14 @@ class LifecycleRun:
             # of several formats that claim the same strings the context reads a record as the first one configured
             scheme = [s for s in self.names if s in HEX32][0]
         h = self._hash(scheme, u["pw"])
+        if shape == "maxlen" and self.names[-1] in ("plaintext", "ldap_plaintext"):
+            # the longest record there is: the plaintext "hash" of a password of the maximum size
+            scheme = self.names[-1]
+            u = dict(u, pw="p" * 4096)
+            h = self._hash(scheme, u["pw"])
+            shape = "hash"
+        elif shape == "maxlen":
+            shape = "hash"
         rec = {"pw": u["pw"], "orig": h, "scheme": scheme}
         if shape == "hash":
             rec["cur"] = h
@@ -200,7 +208,17 @@ class LifecycleRun:
         cur = rec["cur"]
         # (also: text of <= 4096 characters but more UTF-8 bytes, and text that cannot be encoded at all -- a disabled record
         #  answers False without ever looking at the password)
-        for pw in (rec["pw"], "", cur, "wrong", cur[1:] if len(cur) > 1 else "x", "é" * 2100, "caf\udce9", "\ud800"):
+        for i_, pw in enumerate((rec["pw"], "", cur, "wrong", cur[1:] if len(cur) > 1 else "x", "é" * 2100, "caf\udce9", "\ud800")):
+            # (the caller's user category, when the application has some: a disabled record is disabled for every category)
+            if len(pw) > 4096:
+                continue  # (beyond the library's password size limit, another property's business: refused for any record)
+            cat = [None, "admin", "staff", None, "guest"][(ctx.n_ops + i_) % 5]
+            if cat:
+                rc = _call(self.cc.verify, pw, cur, category=cat, **self.ckw)
+                ctx.check(rc == ("ok", False), "C18", "disabled-record-verifies", f"verify({pw!r:.60}, {cur!r:.80}, category={cat!r}) -> {rc[:2]}", scheme=self.disabled)
+                rc = _call(self.cc.verify_and_update, pw, cur, category=cat, **self.ckw)
+                ctx.check(rc[0] == "ok" and rc[1][0] is False, "C18", "disabled-record-verifies", f"verify_and_update({pw!r:.60}, {cur!r:.80}, category={cat!r}) -> {rc[:2]}",
+                          scheme=self.disabled)
             r = _call(self.cc.verify, pw, cur, **self.ckw)
             ctx.check(r == ("ok", False), "C18", "disabled-record-verifies", f"verify({pw!r:.60}, {cur!r}, {self.ckw}) -> {r[:2]}", scheme=self.disabled)
             r = _call(self.cc.verify_and_update, pw, cur, **self.ckw)
@@ -244,6 +262,8 @@ class LifecycleRun:
         st = self.parse(cur)
         if st[0] == "none":
             return self.op_verify_none({}, rec)
+        if len(pw) > 4096:
+            return  # (beyond the library's password size limit)
         r = _call(self.cc.verify, pw, cur, **self.ckw)
         if st[0] == "disabled":
             ctx.check(r == ("ok", False), "C18", "disabled-record-verifies", f"verify({pw!r}, {cur!r}) -> {r[:2]}", scheme=self.disabled)
